@@ -20,11 +20,15 @@ def report(key, what, inp):
         viol.append({"key": key, "what": what, "input": inp})
 
 def gen_helix(kind=None):
-    kind = kind or rng.choice(["typ", "typ", "typ", "low_pt", "high_pt", "wrap", "dr0", "drneg", "bigdr"])
+    kind = kind or rng.choice(["typ", "typ", "typ", "low_pt", "high_pt", "wrap", "dr0", "drneg", "bigdr", "farside"])
     q = rng.choice([-1, 1])
     pt = {"low_pt": rng.uniform(0.05, 0.2), "high_pt": rng.uniform(2, 10)}.get(kind, rng.uniform(0.2, 2.0))
     kappa = q / pt
-    dr = {"dr0": 0.0, "drneg": -rng.uniform(0.01, 3), "bigdr": rng.uniform(-30, 30)}.get(kind, rng.uniform(-1.5, 1.5))
+    if kind == "farside":
+        # the pivot lies beyond the circle centre: dr has the opposite sign of the signed radius and |dr| > |r| (low-pt curlers)
+        pt = rng.uniform(0.05, 0.2); kappa = q / pt
+    dr = {"dr0": 0.0, "drneg": -rng.uniform(0.01, 3), "bigdr": rng.uniform(-30, 30),
+          "farside": -(ALPHA / kappa) * rng.uniform(1.05, 2.5)}.get(kind, rng.uniform(-1.5, 1.5))
     # "wrap": directions at and next to the 0 / 2*pi seam (the largest doubles below 2*pi included) and the quadrant boundaries
     phi0 = rng.choice([0.0, 1e-9, 5e-324, TWO_PI - 1e-9, TWO_PI - 1e-12, float(np.nextafter(TWO_PI, 0)), float(np.nextafter(np.nextafter(TWO_PI, 0), 0)),
                        math.pi, math.pi / 2, float(np.nextafter(math.pi, 4))]) if kind == "wrap" else rng.uniform(0, TWO_PI)
@@ -174,6 +178,13 @@ def _object_mutation(prefix):
     k = rng.randrange(5); new = list(par)
     new[k] = {0: par[0] + 0.37, 1: (par[1] + 1.1) % TWO_PI, 2: par[2] * rng.choice([1.02, -1.0, 0.5]), 3: par[3] - 2.5, 4: par[4] + 0.3}[k]
     setattr(h, FIELDS5[k], new[k]); n_eval += 1; bump(f"history:object-attribute:{FIELDS5[k]}")
+    # ... and the error matrix edited in place (same ndarray object, new content) between two identical moves
+    E = gen_error(); he = obj(par, p0, E.copy()); _ = he.change_pivot(*p1)
+    he.error *= 4.0; he.error[2, :] *= 1.5; he.error[:, 2] *= 1.5; n_eval += 1
+    wantE = np.asarray(obj(par, p0, np.array(he.error, copy=True)).change_pivot(*p1).error); gotE = np.asarray(he.change_pivot(*p1).error)
+    if not np.allclose(gotE, wantE, rtol=1e-12, atol=0):
+        report(f"{prefix}:history:stale-after-error-edit", "after the error matrix of a used object was edited in place, change_pivot returns the matrix propagated from the OLD content",
+               {"par": par, "pivot": p0, "new_pivot": p1})
     f = obj(new, p0); a, b = h.change_pivot(*p1), f.change_pivot(*p1)
     got = pars(a) + [h.radius, h.momentum.pt, h.momentum.phi, h.momentum.pz, h.position.x, h.position.y, h.position.z, h.charge]
     want = pars(b) + [f.radius, f.momentum.pt, f.momentum.phi, f.momentum.pz, f.position.x, f.position.y, f.position.z, f.charge]
@@ -230,7 +241,35 @@ def _guarded(fn, name):
             where = next((f"{t.filename.split('/')[-1]}:{t.lineno}" for t in reversed(tb) if "/pybes3/" in t.filename), "?")
             report(f"{prefix}:{name}:raises:{type(e).__name__}", f"{name} made the implementation raise {type(e).__name__} at {where}: {str(e)[:200]}", {"item": name, "rng_state_hash": hash(st) % 10**9})
     return run
+def _isclose_boundary(prefix):
+    """closeness decided at the boundary of the tolerance (np.isclose(a, b) scales rtol by |b|: the roles of the two helices matter);
+    array, single record (with and without error matrix) and object must give the same verdict"""
+    global n_eval
+    m = rng.choice([1, 3, 4]); P = [gen_helix() for _ in range(m)]; p0 = gen_pivot()
+    # closeness decided at the boundary of the tolerance (np.isclose(a, b) scales rtol by |b|: the roles of the two helices matter)
+    bump("isclose:boundary")
+    k = rng.randrange(5); rt = rng.choice([1e-5, 1e-3, 0.1]); at = rng.choice([1e-8, 0.0])
+    Pa = [list(pp) for pp in P]; Pb = [list(pp) for pp in P]
+    for j in range(m):
+        base = Pa[j][k] if abs(Pa[j][k]) > 1e-3 else 1.0
+        Pa[j][k] = base
+        # |a - b| between atol + rtol*|a| and atol + rtol*|b|  (b a little larger in magnitude), or just outside / inside both
+        Pb[j][k] = base * (1 + rt * rng.choice([0.5, 1.0 + 0.5 * rt, 1.0 + 2 * rt, 1.5])) + (at if base > 0 else -at)
+    for A, B, lab in ((Pa, Pb, "a~b"), (Pb, Pa, "b~a")):
+        ga = ak.to_numpy(awk(A, [p0] * m).isclose(awk(B, [p0] * m), rtol=rt, atol=at)); n_eval += 1
+        for j in range(m):
+            wo = bool(obj(A[j], p0).isclose(obj(B[j], p0), rtol=rt, atol=at))
+            wr = bool(awk([A[j]], [p0])[0].isclose(awk([B[j]], [p0])[0], rtol=rt, atol=at))
+            if bool(ga[j]) != wo or wr != wo:
+                report(f"{prefix}:array-differs-from-object:isclose:tolerance-boundary", f"track {j} ({lab}, field {FIELDS5[k]}, rtol={rt}, atol={at}): array {bool(ga[j])}, record {wr}, object {wo}",
+                       {"a": A[j], "b": B[j], "pivot": p0, "rtol": rt, "atol": at}); break
+    # with error matrices on both sides as well (records and objects)
+    E = gen_error(); a0 = P[0]; b0 = list(a0); b0[3] = a0[3] + 1e-7
+    wo = bool(obj(a0, p0, E).isclose(obj(b0, p0, E))); wr = bool(awk([a0], [p0], [E])[0].isclose(awk([b0], [p0], [E])[0])); n_eval += 1
+    if wo != wr:
+        report(f"{prefix}:array-differs-from-object:isclose:record-with-error", f"record {wr}, object {wo}", {"a": a0, "b": b0, "pivot": p0})
 int_columns_move = _guarded(_int_columns_move, "int-columns")
+isclose_boundary = _guarded(_isclose_boundary, "isclose-boundary")
 reuse_history = _guarded(_reuse_history, "history")
 object_mutation = _guarded(_object_mutation, "history-object")
 reordered_views = _guarded(_reordered_views, "reordered")
@@ -416,7 +455,7 @@ def do_c11():
     samples.append({"helix": par, "pivot": p0, "sequence": seq, "form": fe})
 
 # ------------------------------------------------------------------------------------------------ C13
-def call_forms(par, p0, E, p1):
+def _call_forms(par, p0, E, p1):
     """every documented way of writing the same helix, the same pivot and the same move gives the same helix"""
     global n_eval
     dr, phi0, kappa, dz, tanl = par
@@ -433,11 +472,26 @@ def call_forms(par, p0, E, p1):
             if got != want or not np.array_equal(np.asarray(h.error), E):
                 report(f"C13:constructor-forms-differ:helix_obj:{cname}:{pname}-pivot", f"helix_obj {cname} form with a {pname} pivot: {got}, expected {want}", {"par": par, "pivot": p0})
     moved = ref.change_pivot(*p1); wantm = pars(moved) + piv_of(moved)
-    for aname, args in (("tuple", (tuple(p1),)), ("vector", (vector.obj(x=p1[0], y=p1[1], z=p1[2]),)), ("record", (ak.Record({"x": p1[0], "y": p1[1], "z": p1[2]}),))):
+    zxy = ak.Record({"z": p1[2], "x": p1[0], "y": p1[1]})       # coordinates are named, not positional
+    for aname, args in (("tuple", (tuple(p1),)), ("vector", (vector.obj(x=p1[0], y=p1[1], z=p1[2]),)), ("record", (ak.Record({"x": p1[0], "y": p1[1], "z": p1[2]}),)),
+                        ("record-fields-zxy", (zxy,))):
         bump(f"callform:obj.change_pivot:{aname}")
         h = ref.change_pivot(*args); got = pars(h) + piv_of(h); n_eval += 1
         if got != wantm:
             report(f"C13:constructor-forms-differ:change_pivot:{aname}", f"change_pivot with a {aname} argument: {got}, with x, y, z: {wantm}", {"par": par, "pivot": p0, "new_pivot": p1})
+    # the same for the record and the array kind, and a per-track pivot array whose fields are declared in another order
+    rec1 = awk([par], [p0], [E])[0]; arr2 = awk([par, par], [p0, p0], [E, E])
+    pt_zxy = ak.zip({"z": [p1[2]] * 2, "x": [p1[0]] * 2, "y": [p1[1]] * 2}, with_name="Vector3D")
+    for aname, mkr in (("record-kind:record-fields-zxy", lambda: rec1.change_pivot(zxy)), ("array-kind:record-fields-zxy", lambda: arr2.change_pivot(zxy)[1]),
+                       ("array-kind:per-track-fields-zxy", lambda: arr2.change_pivot(pt_zxy)[1])):
+        bump(f"callform:change_pivot:{aname}"); n_eval += 1
+        r2 = mkr(); got = [float(r2[f]) for f in FIELDS5] + [float(r2.pivot[c]) for c in "xyz"]
+        if any(abs(g - w) > 1e-9 * (1 + abs(w)) + 1e-9 * abs(ALPHA / kappa) for g, w in zip(got, wantm)):
+            report(f"C13:constructor-forms-differ:change_pivot:{aname}", f"{aname}: {got}, with x, y, z: {wantm}", {"par": par, "pivot": p0, "new_pivot": p1})
+    pv_zxy = ak.Record({"z": p0[2], "x": p0[0], "y": p0[1]})
+    hz = p3.helix_obj(params=(dr, phi0, kappa, dz, tanl), pivot=pv_zxy); n_eval += 1
+    if piv_of(hz) != list(p0):
+        report("C13:constructor-forms-differ:helix_obj:record-fields-zxy-pivot", f"pivot record with fields declared z, x, y read as {piv_of(hz)}, given {p0}", {"par": par, "pivot": p0})
     # array constructor: positional helix / error / pivot, helix=, columns
     other = gen_helix(); E2 = gen_error()
     raw = ak.Array(np.array([other, par])); err = ak.Array(np.array([E2, E]))
@@ -471,9 +525,30 @@ def call_forms(par, p0, E, p1):
         ho = p3.helix_obj(momentum=ref.momentum, position=ref.position, charge=ref.charge, pivot=tuple(p0)); wo = pars(ho) + piv_of(ho)
         if any(abs(wrap(g - w)) > 1e-9 if k == 1 else abs(g - w) > 1e-9 * (1 + abs(w)) for k, (g, w) in enumerate(zip(back, wo))):
             report(f"C13:constructor-forms-differ:helix_awk:physics:{pname}-pivot", f"helix_awk(momentum, position, charge, pivot={pname}) gives {back}, helix_obj from the same numbers {wo}", {"par": par, "pivot": p0})
+    # the record kind: a helix record's own reported position / momentum / charge / pivot rebuild it (through helix_obj)
+    bump("callform:record-physics"); n_eval += 1
+    rec = aa[1]
+    hr = p3.helix_obj(position=rec.position, momentum=rec.momentum, charge=rec.charge, pivot=rec.pivot); gr = pars(hr) + piv_of(hr)
+    if any(abs(wrap(g - w)) > 1e-9 if k == 1 else abs(g - w) > 1e-9 * (1 + abs(w)) for k, (g, w) in enumerate(zip(gr, want))):
+        report("C13:roundtrip:record-kind", f"helix_obj built from a helix RECORD's own position / momentum / charge / pivot gives {gr}, the record holds {want}", {"par": par, "pivot": p0})
+    # position / momentum / pivot written as records OF ragged coordinate lists (the way docs/user-manual/helix.md builds them)
+    bump("callform:awk-physics:doc-form"); n_eval += 1
+    cnts = [1, 0, 1]
+    un = lambda v: ak.unflatten(ak.Array(np.asarray(ak.to_numpy(v), dtype=np.float64)), cnts)
+    dpos = ak.Array({"x": un(aa.position.x), "y": un(aa.position.y), "z": un(aa.position.z)}, with_name="Vector3D")
+    dmom = ak.Array({"px": un(aa.momentum.px), "py": un(aa.momentum.py), "pz": un(aa.momentum.pz)}, with_name="Momentum3D")
+    dpiv = ak.Array({"x": un(aa.pivot.x), "y": un(aa.pivot.y), "z": un(aa.pivot.z)}, with_name="Vector3D")
+    for pname, pv in (("doc-form-array", dpiv), ("tuple", tuple(p0))):
+        hd = p3.helix_awk(position=dpos, momentum=dmom, charge=un(aa.charge), pivot=pv)
+        if hd.dr.ndim != 2 or ak.to_list(ak.num(hd.dr, axis=1)) != cnts:
+            report(f"C13:constructor-forms-differ:helix_awk:physics:doc-form-position:{pname}-pivot", f"position / momentum as records of ragged lists: result has type {str(hd.dr.type)[:60]}, tracks are nested {cnts}", {"par": par, "pivot": p0}); continue
+        gd = [float(ak.flatten(hd[f])[1]) for f in FIELDS5]
+        if any(abs(wrap(g - w)) > 1e-9 if k == 1 else abs(g - w) > 1e-9 * (1 + abs(w)) for k, (g, w) in enumerate(zip(gd, par))):
+            report(f"C13:constructor-forms-differ:helix_awk:physics:doc-form-position:{pname}-pivot", f"{gd} vs {par}", {"par": par, "pivot": p0})
     # physics-quantity constructor: momentum / position given as tuple, vector object, Awkward record
     mom, pos = ref.momentum, ref.position
-    mforms = {"vector": mom, "tuple": (mom.px, mom.py, mom.pz), "record": ak.Record({"px": mom.px, "py": mom.py, "pz": mom.pz})}
+    mforms = {"vector": mom, "tuple": (mom.px, mom.py, mom.pz), "record": ak.Record({"px": mom.px, "py": mom.py, "pz": mom.pz}),
+              "record-pt-phi-pz": ak.Record({"pt": mom.pt, "phi": mom.phi, "pz": mom.pz})}
     pforms = {"vector": pos, "tuple": (pos.x, pos.y, pos.z), "record": ak.Record({"x": pos.x, "y": pos.y, "z": pos.z})}
     base = None
     for mn, mv in mforms.items():
@@ -484,6 +559,17 @@ def call_forms(par, p0, E, p1):
                 if base is None: base = got
                 if any(abs(g - b) > 1e-9 * (1 + abs(b)) for g, b in zip(got, base)):
                     report(f"C13:constructor-forms-differ:helix_obj:physics:{mn}-momentum:{pn}-position:{pvn}-pivot", f"{got} vs {base}", {"par": par, "pivot": p0})
+
+def call_forms(par, p0, E, p1):
+    try:
+        _call_forms(par, p0, E, p1)
+    except Exception as e:  # noqa
+        import traceback
+        tb = traceback.extract_tb(e.__traceback__)
+        where = next((f"{t.filename.split('/')[-1]}:{t.lineno}" for t in reversed(tb) if "/pybes3/" in t.filename), "?")
+        mine = next((t.lineno for t in reversed(tb) if t.filename.endswith("helix_impl.py")), 0)
+        report(f"C13:call-forms:raises:{type(e).__name__}:{where}", f"a documented call form made the implementation raise {type(e).__name__} at {where} "
+               f"(search line {mine}): {str(e)[:200]}", {"par": par, "pivot": p0, "new_pivot": p1})
 
 def do_c13():
     global n_eval
@@ -517,6 +603,7 @@ def do_c13():
                 if any(abs(g - w) > 1e-9 * (1 + abs(w)) for g, w in zip(got, want)):
                     report(f"C13:container-forms-differ:int-columns:{pv_kind}-pivot", f"helix_awk with integer-typed columns and pivot {fp}: position/pivot {got} vs object {want}", {"par": ipar, "pivot": fp})
         if i % 10 == 0: call_forms(par, p0, gen_error(), gen_pivot())
+        if i % 12 == 0: object_mutation("C13")
         if i % 10 == 5: call_forms(par, rng.choice([[0.0, 0.0, rng.uniform(-20, 20)], [rng.uniform(-5, 5), 0.0, 0.0], [0.0, rng.uniform(-5, 5), 0.0]]), gen_error(), gen_pivot())
         # three ways of passing parameters
         h1 = p3.helix_obj(dr, phi0, kappa, dz, tanl, pivot=tuple(p0)); h2 = p3.helix_obj(dr=dr, phi0=phi0, kappa=kappa, dz=dz, tanl=tanl, pivot=tuple(p0))
@@ -551,6 +638,8 @@ def layouts(pars_list):
     yield "ragged+empty", ak.unflatten(ak.Array(a), [0] + counts + [0]), list(range(n))
     if n % 2 == 0 and n >= 2:
         yield "regular", ak.to_regular(ak.unflatten(ak.Array(a), [2] * (n // 2)), axis=1), list(range(n))
+        # the same regular nesting held by ONE n-dimensional NumPy buffer (ak.Array(np.ndarray), ak.from_numpy)
+        yield "numpy-regular", ak.Array(a.reshape(n // 2, 2, 5)), list(range(n))
     if n >= 4:
         inner = ak.unflatten(ak.Array(a), [1, n - 3, 2])
         yield "depth3", ak.unflatten(inner, [2, 1]), list(range(n))
@@ -593,8 +682,11 @@ def do_c07():
                         flat_idx = ak.local_index(ak.flatten(kw["dr"], axis=None))
                         e = e[np.array(order)]
                         lay = kw["dr"]
-                        for cnt in p3._utils._extract_index(ak.to_packed(lay).layout)[::-1]:
-                            e = ak.unflatten(e, cnt, axis=0)
+                        if lname == "numpy-regular":
+                            e = ak.Array(np.array(errs)[np.array(order)].reshape(m // 2, 2, 5, 5))
+                        else:
+                            for cnt in p3._utils._extract_index(ak.to_packed(lay).layout)[::-1]:
+                                e = ak.unflatten(e, cnt, axis=0)
                         kw["error"] = e
                     ha = p3.helix_awk(**kw)
                     if pform == "tuple": out = ha.change_pivot(*p1)
@@ -718,6 +810,7 @@ def do_c07():
                         report("C07:array-differs-from-object:isclose:raw-phi0", f"track {j}: array isclose {bool(ga[j])}, object isclose {wo} (phi0 written outside [0, 2*pi), partner pivot {'same' if pb is p0 else 'different'})",
                                {"tracks": Pa, "partners": Pb, "pivot": p0, "partner_pivot": pb}); break
         if i % 6 == 0: int_columns_move("C07")
+        if i % 2 == 0: isclose_boundary("C07")
         if i % 4 == 0: reordered_views("C07")
         if i % 5 == 0: reuse_history("C07")
         # permutation equivariance on the flat layout
